@@ -144,7 +144,7 @@ size_t SubjectRouter::Node::notify(RoutingLevelView levelView, Args &&...args) {
     if (levelView.isLeaf()) {
         if (m_subject != nullptr) {
             auto &subject = *reinterpret_cast<Subject_t<Args...>*>(m_subject.get());
-            subject.notify(std::forward<Args>(args)...);
+            subject.notify(args...); // may be one of several receivers: never consume
             return 1;
         }
     } else {
@@ -154,12 +154,12 @@ size_t SubjectRouter::Node::notify(RoutingLevelView levelView, Args &&...args) {
             size_t notifyCount = 0;
 
             for (auto & [name, node] : m_children)
-                notifyCount += node.notify(nextLevel, args...);
+                notifyCount += node.template notify<Args...>(nextLevel, std::forward<Args>(args)...);
 
             return notifyCount;
         } else {
             if (auto it = m_children.find(nextLevel.asString()); it != m_children.end()) {
-                return it->second.notify(nextLevel, std::forward<Args>(args)...);
+                return it->second.template notify<Args...>(nextLevel, std::forward<Args>(args)...);
             }
         }
     }
